@@ -509,10 +509,13 @@ fn check_faulted(
                 out.count("referrer_unverifiable", 1);
                 true
               }
-              None => fshape
-                .imports
-                .iter()
-                .any(|(referrer, _)| referrer == r),
+              // configured imports, or the default range of a
+              // `Resolver::resolve_types` answer, which names the types
+              // specifier itself (possibly a redirect source of this entry)
+              None => {
+                fshape.imports.iter().any(|(referrer, _)| referrer == r)
+                  || chain_contains(fshape, r, &id.url)
+              }
             };
             if !imports_it {
               out.violation(
@@ -533,8 +536,9 @@ fn check_faulted(
           // a successful earlier load of the same url under another request
           // identity (e.g. asset then module) can legitimately own the slot
           let other_ok = run.loads.iter().any(|l| {
-            l.id.url == id.url
-              && l.id != *id
+            l.id != *id
+              && (l.id.url == id.url
+                || l.final_url.as_deref() == Some(id.url.as_str()))
               && (l.answer == "module" || l.answer == "external")
           });
           if !other_ok {
